@@ -74,6 +74,17 @@ def enumerated(tier, seed):
             f1 = dict(name="ONE", ext="BIN", kind="ml", ftype=2, dtype=0, load=0x0E00, exec=0x0E00, data=dict(n=300, k=1, mode=0, head="", tail=""))
             f2 = dict(name="two", ext="BAS", kind="basic", ftype=0, dtype=0, load=0, exec=0, data=dict(n=2300, k=2, mode=1, head="", tail=""))
             yield dict(kind=kind, level=level, steps=[[f1], [f2], [f1]])
+    # a file with an empty name (C06 allows names of 0 characters; such a tape file reaches a disk through a conversion)
+    # is a file like any other: later additions (same session, later session) leave it listed.  Names with blanks in
+    # them are outside the quantified domain (the disk listing drops blanks) and are not generated.
+    for kind in ("cas", "dsk"):
+        for level in ("virtualfile", "container"):
+            for nm in ("",):
+                f1 = dict(name=nm, ext="BIN", kind="ml", ftype=2, dtype=0, load=0x0E00, exec=0x0E00, data=dict(n=300, k=1, mode=0, head="", tail=""))
+                f2 = dict(name="two", ext="BAS", kind="basic", ftype=0, dtype=0, load=0, exec=0, data=dict(n=2300, k=2, mode=1, head="", tail=""))
+                f3 = dict(name="THREE", ext="DAT", kind="ascii", ftype=1, dtype=0xFF, load=0, exec=0, data=dict(n=40, k=3, mode=0, head="", tail=""))
+                yield dict(kind=kind, level=level, steps=[[f1], [f2], [f3]])
+                yield dict(kind=kind, level=level, steps=[[f2, f1, f3], [dict(f2, name="FOUR")]])
     # disk re-opened and extended under allocation orders that visit granule 0 early (a FAT link of $00 is a link)
     big = dict(name="BIG", ext="BIN", kind="ml", ftype=2, dtype=0, load=1, exec=2, data=dict(n=7000, k=3, mode=0, head="", tail=""))
     small = dict(name="SML", ext="DAT", kind="ascii", ftype=1, dtype=0xFF, load=0, exec=0, data=dict(n=300, k=4, mode=0, head="", tail=""))
